@@ -17,6 +17,8 @@ EXTENDS Integers, Sequences, FiniteSets, TLC
 CONSTANTS P,             \* modulus of the model field (5, 7)
           NBits,         \* number of bits of the decomposition
           BoolEnforced,  \* the bool check binds the value on the bus
+          Unchecked,     \* set of bit positions (1-based) that get NO bool check at all ({} in the code): the check
+                         \* is emitted per bit in reconstruct_index_from_bits, so it can be missing for a single bit
           RangeChecked   \* an extra constraint keeps sum b_i 2^i below P (not in the code)
 
 VARIABLES x, bits, phase
@@ -24,7 +26,8 @@ vars == <<x, bits, phase>>
 
 Pow2(i) == 2 ^ i
 Val(b) == LET RECURSIVE S(_) S(i) == IF i > NBits THEN 0 ELSE b[i] * Pow2(i - 1) + S(i + 1) IN S(1)
-BitDomain == IF BoolEnforced THEN {0, 1} ELSE 0 .. P - 1
+BitDomain(i) == IF BoolEnforced /\ i \notin Unchecked THEN {0, 1} ELSE 0 .. P - 1
+BitVectors == {b \in [1..NBits -> 0 .. P - 1] : \A i \in 1..NBits : b[i] \in BitDomain(i)}
 Canonical(v) == [i \in 1..NBits |-> (v \div Pow2(i - 1)) % 2]
 
 Init == x \in 0 .. P - 1 /\ bits = <<>> /\ phase = "hint"
@@ -32,7 +35,7 @@ Init == x \in 0 .. P - 1 /\ bits = <<>> /\ phase = "hint"
 \* the prover's hint: any vector the circuit's constraints accept
 Hint ==
     /\ phase = "hint"
-    /\ \E b \in [1..NBits -> BitDomain] :
+    /\ \E b \in BitVectors :
           /\ Val(b) % P = x
           /\ RangeChecked => Val(b) < P
           /\ bits' = b
